@@ -22,13 +22,17 @@ CHECKS = {
         'the command and the cross-check command are re-run on the output '
         'file, its token digest is looked up among the candidates the '
         'command-side log shows as tested and accepted, and the input digest '
-        'is compared.  Held = on every observed run.',
+        'is compared.  Inputs include files whose failure is their '
+        'unbalanced shape (no candidate can be accepted).  Held = on every '
+        'observed run.',
         ref='3/C01'),
     'C02': dict(
         cat='exploration',
         technique='quiescent-point sweep with the real mutators and checker '
         'after reduce(); second real run on the output; constructed '
-        'schedules (slow unique success as last result of a sweep)',
+        'schedules (slow unique success as last result of a sweep; whitelist '
+        'commands that force a history across the ddmin/hierarchical '
+        'hand-over)',
         text='After strategy_hierarchical.reduce returns inside the real '
         'process, a monitor re-enumerates every proposal of every enabled '
         'mutator on the final input and runs the real checker on each; in '
@@ -79,7 +83,8 @@ CHECKS = {
         cat='fault_enumeration',
         technique='crash snapshot at every failpoint of every rewrite of the '
         'output file, injected interrupts/kills, real signals, live reader, '
-        'strace rule, adoption-to-write promptness markers',
+        'strace rule, adoption-to-write promptness markers (sequential and '
+        'parallel path of ddmin, hierarchical)',
         text='At every LINE event inside write_smtlib_to_file the monitor '
         'reads the output file from disk (what a kill would leave and a '
         'reader would see) and compares it with the previous/next accepted '
@@ -164,11 +169,14 @@ CHECKS = {
     'C14': dict(
         cat='exploration',
         technique='reference fold of the option sequence vs real pass lists; '
-        'mutator-call events of traced runs',
+        'mutator-call events of traced runs (incl. runs in which one mutator '
+        'is made to fail in every call)',
         text='All single toggles and ordered pairs (exhaustive) and random '
         'longer sequences are parsed by the real option parser; the enabled '
         'set and the pass lists are compared with an independent fold; '
-        'traced runs confirm that only those mutators are called.',
+        'traced runs confirm that only those mutators are called, and that '
+        'every scheduled one is consulted in a run that ends normally on a '
+        'non-empty input, also while another one raises in every call.',
         ref='3/C14'),
     'C15': dict(
         cat='exploration',
@@ -204,10 +212,13 @@ CHECKS = {
         cat='exploration',
         technique='equality of write chains and output bytes over repeated '
         '-j1 runs perturbed in hash seed, pids and timing (incl. a family '
-        'whose fresh names are parse-time ids)',
+        'whose fresh names are parse-time ids; consistent-renaming test at '
+        'the first differing write)',
         text='Each case is run 4 times with different PYTHONHASHSEED, command '
         'delays and injected delays; the sequences of written contents and '
-        'the final bytes must be identical.',
+        'the final bytes must be identical; a difference is attributed to '
+        'the known naming mechanism only if the two files agree under a '
+        'consistent renaming of the fresh variables.',
         ref='3/C18'),
 }
 
